@@ -66,17 +66,39 @@ func (e *Exec) modelDeflate(data []Value) []Value {
 	n := len(data)
 	out := []Value{tc.BV(uint64(zlibMagic[0]), 8), tc.BV(uint64(zlibMagic[1]), 8),
 		tc.BV(uint64(n>>24)&0xff, 8), tc.BV(uint64(n>>16)&0xff, 8), tc.BV(uint64(n>>8)&0xff, 8), tc.BV(uint64(n)&0xff, 8)}
-	return append(out, data...)
+	out = append(out, data...)
+	// 4 trailer bytes standing for the Adler-32 checksum (content not modelled)
+	return append(out, tc.BV(0, 8), tc.BV(0, 8), tc.BV(0, 8), tc.BV(0, 8))
 }
 
 type zrState struct {
-	src       Iface
-	remaining int
-	closed    bool
+	src                     Iface
+	remaining               int
+	closed                  bool
+	trailerRead, trailerBad bool
 }
 
 func (eng *Engine) initStubs2() {
 	s := eng.stubs
+	eng.initStubsBinary()
+	// block.IsAir(s) = IsAirBlock(StateList[s]): bounds check against the registry
+	// size, then membership in the (natively computed) set of air state ids.
+	s[modPath+"/level/block.IsAir"] = func(e *Exec, _ *frame, _ *ssa.Function, args []Value) Value {
+		tc := e.tc
+		id := args[0].(*Term)
+		if e.eng.nStates == 0 {
+			e.unsupported("block registry size not available")
+		}
+		in := tc.Cmp(OpUlt, id, tc.BV(e.eng.nStates, id.w))
+		if !e.Decide(in) {
+			e.targetPanicStr("runtime error: index out of range [sym] with length " + fmt.Sprint(e.eng.nStates))
+		}
+		r := tc.False
+		for _, a := range e.eng.airIDs {
+			r = tc.BOr(r, tc.Eq(id, tc.BV(a, id.w)))
+		}
+		return r
+	}
 	// ---- compress/zlib: lossless "stored" model codec (DESIGN 3.3)
 	zwOf := func(e *Exec, p Ptr) *zwState {
 		if e.zw == nil {
@@ -127,6 +149,15 @@ func (eng *Engine) initStubs2() {
 			return Tuple{tc.BV(0, 64), Iface{}}
 		}
 		if st.remaining == 0 {
+			if !st.trailerRead {
+				st.trailerRead = true
+				if _, err := e.readFull(caller, st.src, 4); err.t != nil {
+					st.trailerBad = true
+				}
+			}
+			if st.trailerBad {
+				return Tuple{tc.BV(0, 64), e.sentinel("io", "ErrUnexpectedEOF")}
+			}
 			return Tuple{tc.BV(0, 64), e.sentinel("io", "EOF")}
 		}
 		n := len(p.c)
@@ -173,15 +204,15 @@ func (eng *Engine) initStubs2() {
 	s[vpPath+".Inflate"] = func(e *Exec, _ *frame, _ *ssa.Function, args []Value) Value {
 		in := args[0].(Slice).c
 		tc := e.tc
-		if len(in) < 6 {
+		if len(in) < 10 {
 			return Tuple{Slice{}, tc.False}
 		}
 		ok := tc.BAnd(tc.Eq(in[0].(*Term), tc.BV(uint64(zlibMagic[0]), 8)), tc.Eq(in[1].(*Term), tc.BV(uint64(zlibMagic[1]), 8)))
 		l := tc.Concat(tc.Concat(in[2].(*Term), in[3].(*Term)), tc.Concat(in[4].(*Term), in[5].(*Term)))
-		ok = tc.BAnd(ok, tc.Eq(l, tc.BV(uint64(len(in)-6), 32)))
+		ok = tc.BAnd(ok, tc.Eq(l, tc.BV(uint64(len(in)-10), 32)))
 		if !e.Decide(ok) {
 			return Tuple{Slice{}, tc.False}
 		}
-		return Tuple{e.newByteSlice(in[6:]), tc.True}
+		return Tuple{e.newByteSlice(in[6 : len(in)-4]), tc.True}
 	}
 }
